@@ -13,6 +13,7 @@ from concurrent.futures import ThreadPoolExecutor
 from vlib import *
 
 SRC = "libasn1compiler/asn1c_C.c"
+OUT_FUNCTIONS = ("emit_type_DEF", "emit_member_table", "asn1c_lang_C_type_SIMPLE_TYPE", "asn1c_lang_C_type_REFERENCE", "emit_tags_vectors")
 
 
 def build_cov():
@@ -153,6 +154,14 @@ def coverage_report(mods, optsets_of, limit=None):
             continue
         b = body[0]
         arms["%s:%d:%s" % (fn_of(l), l, src[l - 1].strip()[:40])] = "%s (+%d more)" % (first_line[b], nmods_line[b] - 1) if b in first_line else "NEVER"
+    # the emitted-output decisions of the descriptor emitters: every OUT( statement of these functions (the if-ladders
+    # of emit_type_DEF are not switch arms)
+    outs = {}
+    for n, a, b in fns:
+        if n in OUT_FUNCTIONS:
+            for l in range(a, b + 1):
+                if l in exe and re.search(r"\bOUT\(", src[l - 1]):
+                    outs["%s:%d:%s" % (n, l, src[l - 1].strip()[:60])] = "%s (+%d more)" % (first_line[l], nmods_line[l] - 1) if l in first_line else "NEVER"
     never = sorted(exe - set(first_line))
     ranges, cur = [], []
     for l in never:
@@ -168,5 +177,6 @@ def coverage_report(mods, optsets_of, limit=None):
         "source": SRC, "modules_run": len(res), "executable_lines": len(exe), "executed_lines": len(exe & set(first_line)),
         "functions": {n: ("%s (+%d more)" % (fn_first[n], fn_n[n] - 1) if n in fn_first else "NEVER") for n, _a, _b in fns},
         "switch_arms": arms,
+        "out_statements": outs,
         "never_executed": ["%s L%d-%d (%d lines): %s" % (fn_of(r[0]), r[0], r[-1], len(r), src[r[0] - 1].strip()[:70]) for r in ranges],
     }
